@@ -318,7 +318,7 @@ def gen_script(rng, family=None):
             add("raw")
     elif family == "fsrv":
         for _ in range(rng.choice([1, 2])):
-            add("fsrv", 1 if rng.random() < 0.8 else 0)
+            add("fsrv", rng.choice([1, 1, 1, 1, 0, 3, 2]))
     else:
         add("raw"); add("lib", 1); add("fsrv", 1)
         if rng.random() < 0.5:
@@ -341,7 +341,7 @@ def gen_script(rng, family=None):
         elif r < 0.09:
             sb.op("cb8 %d" % rng.randint(0, 1))
         elif r < 0.12 and k in ("raw", "rawpre"):
-            sb.op("close %d" % i)
+            sb.op("%s %d" % (rng.choice(["close", "kill"]), i))
         elif r < 0.30:
             t = gen_text(rng, pick_size(rng))
             sb.op("pub %s" % sb.blob(t))
@@ -378,7 +378,7 @@ def gen_script(rng, family=None):
             if len(data) > 2 and rng.random() < 0.35:
                 cuts = sorted(set(rng.randrange(1, len(data)) for _ in range(rng.choice([1, 1, 2]))))
                 sb.op("cuts %d s %s" % (i, ",".join(map(str, cuts))))
-            sb.op("send %d %s" % (i, sb.cat(msgs) if len(msgs) > 1 else sb.blob(data)))
+            sb.op("%s %d %s" % ("senddie" if rng.random() < 0.08 else "send", i, sb.cat(msgs) if len(msgs) > 1 else sb.blob(data)))
         elif k == "lib":
             t = gen_text(rng, pick_size(rng))
             if rng.random() < 0.3:
@@ -599,6 +599,137 @@ def directed(tier):
             sb.op("fsend 0 %s" % name)
         return sb
 
+    def s_request_reply(texts, name_seed):
+        """publish -> every extended client asks (Request, Peek): the replies carry the cached text
+        byte-exact; before any publish and with capabilities that forbid it nothing is sent"""
+        sb = SB()
+        sb.op("raw 0"); sb.op("raw 1"); sb.op("raw 2"); sb.op("raw 3")
+        for i in (0, 1, 2):
+            sb.op("send %d %s" % (i, sb.blob(setenc([ENC_EXT]))))
+        req, peek = cext(REQUEST | TEXT), cext(PEEK | TEXT)
+        for i in (0, 1, 2):                                    # empty clipboard: silently ignored
+            sb.op("send %d %s" % (i, sb.blob(req + peek)))
+        sb.op("send 1 %s" % sb.blob(cext(CAPS | TEXT | REQUEST | PROVIDE, be32(5))))      # provide yes, notify no, max 5
+        sb.op("send 2 %s" % sb.blob(cext(CAPS | TEXT | REQUEST | NOTIFY, be32(0xFFFFFFFF))))  # notify yes, provide no
+        for t in texts:
+            sb.op("pub8 %s %s" % (sb.blob(t), sb.blob(b"fb")))
+            for i in (0, 1, 2):
+                sb.op("send %d %s" % (i, sb.blob(req)))
+                sb.op("send %d %s" % (i, sb.blob(peek)))
+            sb.op("send 0 %s" % sb.blob(req + req + peek))       # asked twice in one read
+        sb.op("send 3 %s" % sb.blob(cct(b"classic still served")))
+        return sb
+
+    rnd64k = bytes((i * 2654435761 >> 11) & 255 for i in range(65536))
+
+    def s_broadcast_dead():
+        """one of several clients dead in the middle of a broadcast (write fails): the others get
+        their message, the dead one is closed; all four write paths (classic publish, fallback,
+        provide, notify) + a client to which nothing is written + one still in the handshake"""
+        sb = SB()
+        for i in range(12):
+            sb.op("raw %d" % i)
+        sb.op("rawpre 12"); sb.op("raw 13")
+        for i in (6, 7, 8, 9, 10, 11, 13):
+            sb.op("send %d %s" % (i, sb.blob(setenc([ENC_EXT]))))
+        for i in (9, 10, 11):
+            sb.op("send %d %s" % (i, sb.blob(cext(CAPS | TEXT | NOTIFY | PROVIDE, be32(2)))))   # small limit: notify
+        sb.op("send 13 %s" % sb.blob(cext(CAPS | TEXT | REQUEST, be32(100))))                    # neither: nothing written
+        sb.op("kill 1"); sb.op("pub %s" % sb.blob(b"classic broadcast"))
+        sb.op("kill 4"); sb.op("pub8 %s %s" % (sb.blob(b"utf8 text"), sb.blob(b"latin1 text")))
+        sb.op("kill 7"); sb.op("pub8 %s %s" % (sb.blob(b"ab"), sb.blob(b"AB")))                  # 6,7,8 provide; 9..11 provide (len 2 <= 2)
+        sb.op("kill 10"); sb.op("kill 13"); sb.op("kill 12")
+        sb.op("pub8 %s %s" % (sb.blob(b"longer than two"), sb.blob(b"fallback")))               # 9,11 notify; 10 fails; 13 silent; 12 skipped
+        sb.op("pub %s" % sb.blob(b"survivors"))
+        sb.op("send 11 %s" % sb.blob(cext(REQUEST | TEXT)))
+        return sb
+
+    def s_senddie():
+        """the sender vanishes right after writing: replies of the input handler cannot be written"""
+        sb = SB()
+        for i in range(7):
+            sb.op("raw %d" % i)
+        for i in range(5):
+            sb.op("send %d %s" % (i, sb.blob(setenc([ENC_EXT]))))
+        sb.op("pub8 %s %s" % (sb.blob(b"cached text"), sb.blob(b"fb")))
+        z = zsync(rec(b"from the dying\0"))
+        sb.z(z)
+        sb.op("senddie 0 %s" % sb.blob(cext(REQUEST | TEXT)))
+        sb.op("senddie 1 %s" % sb.blob(cext(PEEK | TEXT)))
+        sb.op("senddie 2 %s" % sb.blob(cct(b"first") + cext(REQUEST | TEXT) + cct(b"never seen")))
+        sb.op("senddie 3 %s" % sb.blob(cext(PROVIDE | TEXT, z) + cct(b"second")))       # no reply due: both delivered
+        sb.op("senddie 5 %s" % sb.blob(setenc([0, ENC_EXT, ENC_EXT])))                   # capability message cannot be written
+        sb.op("senddie 6 %s" % sb.blob(cct(b"bye")))
+        sb.op("pub8 %s %s" % (sb.blob(b"after"), sb.blob(b"AFTER")))
+        sb.op("send 4 %s" % sb.blob(cext(REQUEST | TEXT)))
+        return sb
+
+    def s_provide_variants():
+        """record loop: several formats, text absent, two provides in one read, callback not
+        installed, zero-size records in both stream styles, missing NUL, trailing data"""
+        sb = SB()
+        for i in range(10):
+            sb.op("raw %d" % i)
+            sb.op("send %d %s" % (i, sb.blob(setenc([ENC_EXT]))))
+
+        def P(flags, plain, comp=zlib.compress):
+            z = comp(plain)
+            sb.z(z)
+            return cext(flags, z)
+        T = rec(b"text\0")
+        sb.op("send 0 %s" % sb.blob(P(PROVIDE | TEXT | 2 | 4, T + rec(b"{\\rtf}") + rec(b"<b>html</b>"))))
+        sb.op("send 0 %s" % sb.blob(P(PROVIDE | TEXT | 2 | 4, T + rec(b"{\\rtf}") + rec(b"<b>html</b>"), zsync)))
+        sb.op("send 0 %s" % sb.blob(P(PROVIDE | 2, rec(b"rtf only"))))
+        sb.op("send 0 %s" % sb.blob(P(PROVIDE | TEXT, rec(b"one\0")) + P(PROVIDE | TEXT, rec(b"two\0"), zsync)))
+        sb.op("send 0 %s" % sb.blob(P(PROVIDE | TEXT, rec(b"no nul"))))
+        sb.op("send 0 %s" % sb.blob(P(PROVIDE | TEXT, T + b"trailing")))
+        sb.op("send 0 %s" % sb.blob(P(PROVIDE | TEXT | (1 << 15), T + rec(b"x" * 300))))
+        sb.op("viewonly 0 1")
+        sb.op("send 0 %s" % sb.blob(P(PROVIDE | TEXT, T)))
+        sb.op("cb8 0")
+        sb.op("send 1 %s" % sb.blob(P(PROVIDE | TEXT, T)))              # hook not installed: accepted, not delivered
+        sb.op("cb8 1")
+        sb.op("send 1 %s" % sb.blob(P(PROVIDE | TEXT, T)))
+        sb.op("send 2 %s" % sb.blob(P(PROVIDE | TEXT, be32(0))))                     # compress()-style, size 0
+        sb.op("send 3 %s" % sb.blob(P(PROVIDE | TEXT, be32(0), zsync)))              # sync-flushed, size 0
+        sb.op("send 4 %s" % sb.blob(P(PROVIDE | TEXT, be32(0) + b"tail")))
+        sb.op("send 5 %s" % sb.blob(P(PROVIDE | TEXT | 2, T + rec(b"short")[:-2])))  # text delivered, second record short
+        sb.op("send 6 %s" % sb.blob(P(PROVIDE | TEXT | 2, T + be32(LIMIT + 1) + b"x")))
+        sb.op("raw 10"); sb.op("raw 11")
+        for i in (10, 11):
+            sb.op("send %d %s" % (i, sb.blob(setenc([ENC_EXT]))))
+        sb.op("send 10 %s" % sb.blob(P(PROVIDE | TEXT | 2, T)))              # second format announced, stream ends after the text
+        sb.op("send 11 %s" % sb.blob(P(PROVIDE | TEXT | 2, T, zsync)))
+        sb.op("send 7 %s" % sb.blob(P(PROVIDE | TEXT, be32(1) + b"\0")))            # smallest legal record
+        sb.op("send 8 %s" % sb.blob(cext(PROVIDE)))                                   # no format bit, no payload
+        sb.op("send 9 %s" % sb.blob(cext(PROVIDE | TEXT)))                            # text bit, empty payload
+        sb.op("pub %s" % sb.blob(b"end"))
+        return sb
+
+    def s_fsrv_variants():
+        """client library: first-inflate failures, callbacks not installed"""
+        sb = SB()
+        for i, a in enumerate([1, 1, 1, 1, 1, 3, 2, 0]):
+            sb.op("fsrv %d %d" % (i, a))
+
+        def P(flags, z):
+            sb.z(z)
+            return sext(flags, z)
+        sb.op("fsend 0 %s" % sb.blob(P(PROVIDE | TEXT, zlib.compress(be32(0)))))            # size 0, stream ends
+        sb.op("fsend 1 %s" % sb.blob(P(PROVIDE | TEXT, b"\x00\x01garbage")))
+        sb.op("fsend 2 %s" % sb.blob(sext(PROVIDE | TEXT)))                                  # empty payload
+        sb.op("fsend 3 %s" % sb.blob(P(PROVIDE | TEXT, zlib.compress(b"\x00\x00"))))       # two bytes only
+        sb.op("fsend 4 %s" % sb.blob(P(PROVIDE | TEXT, zsync(be32(0)))))
+        sb.op("fsend 5 %s" % sb.blob(sct(b"nobody listens") + P(PROVIDE | TEXT, zlib.compress(rec(b"utf8 ok\0")))))
+        sb.op("fsend 6 %s" % sb.blob(sct(b"nobody listens") + sct(b"")))
+        sb.op("fsend 7 %s" % sb.blob(sct(b"classic only")))
+        sb.op("csend 6 %s" % sb.blob(b"out"))
+        return sb
+
+    out += [("request-reply", s_request_reply([b"", b"x", b"hello", b"12345", b"123456", bytes(range(256)), rnd64k], 1)),
+            ("request-reply-limits", s_request_reply([A(LIMIT - 2), A(LIMIT - 1), A(LIMIT)], 2)),
+            ("broadcast-dead-client", s_broadcast_dead()), ("sender-vanishes", s_senddie()),
+            ("provide-variants", s_provide_variants()), ("fsrv-variants", s_fsrv_variants())]
     out += [("seg-all-1cut-server", s_seg_server()), ("seg-all-1cut-client", s_seg_client())]
     out += [("caps-lengths-a", s_caps_lengths([(1, 0, PROVIDE | NOTIFY), (1, 1, PROVIDE), (1, -1, PROVIDE), (2, 1, NOTIFY),
                                                (2, -1, NOTIFY), (16, 0, REQUEST | PROVIDE), (16, 1, PROVIDE), (16, -1, PROVIDE)])),
@@ -630,6 +761,8 @@ class Spec:
         self.cb8 = True
         self.view = {}
         self.open = set()          # ids whose connection is (still) expected open
+        self.dying = set()         # peers that closed without the server having had a chance to notice
+        self.nol1 = {}
         self.state = {}            # id -> (ext, usercap, maxunsol, dsz, dfnv) as last reported
         self.ccaps = {}            # client-library capability word as last reported
         self.null_with_classic = False
@@ -785,7 +918,8 @@ class Spec:
             if neg and not utf8:
                 strict = False; evs.append(None); break      # not negotiated: outcome open
             if not neg:
-                evs.append("ccb%d:l1:%d:%s" % (i, n, fnvc(body)))
+                if not self.nol1.get(i):
+                    evs.append("ccb%d:l1:%d:%s" % (i, n, fnvc(body)))
                 continue
             if n < 4:
                 drop = True; break
@@ -833,7 +967,16 @@ class Spec:
             return "unparsable observation %r" % obs
         evs, closed, st, cc = p
         prev_state, prev_open = dict(self.state), set(self.open)
-        err = self._check(t, evs, closed, st, cc, prev_state, prev_open)
+        err = None
+        if t[0] != "kill" and self.dying:
+            # the op ended with a round of the server's event loop: a vanished peer must be closed
+            # by now (failed write or read of 0 bytes) - and that is all that may happen to it
+            for j in sorted(self.dying):
+                if j not in closed:
+                    err = "peer of connection %d is gone but the server still keeps the connection" % j
+            prev_open -= self.dying
+            self.dying = set()
+        err = err or self._check(t, evs, closed, st, cc, prev_state, prev_open)
         # re-synchronise with what the implementation reports
         self.state = st
         self.ccaps = dict(self.ccaps)
@@ -867,7 +1010,8 @@ class Spec:
         if op in ("raw", "rawpre", "lib", "fsrv"):
             i = int(t[1])
             self.kind[i] = op
-            self.utf8[i] = int(t[2]) if len(t) > 2 else 0
+            self.utf8[i] = (int(t[2]) & 1) if len(t) > 2 else 0
+            self.nol1[i] = (int(t[2]) & 2) if len(t) > 2 else 0
             self.view[i] = 0
             if [e for e in plain if not e.startswith("cdrop")] or newly_closed:
                 return "connection setup produced %r / closed %r" % (evs, newly_closed)
@@ -886,6 +1030,33 @@ class Spec:
         if op == "viewonly":
             self.view[int(t[1])] = int(t[2])
             return None if not evs and not newly_closed else "viewonly had effects"
+        if op == "kill":
+            i = int(t[1])
+            if evs or newly_closed:
+                return "closing the peer of %d without running the server had effects: %r %r" % (i, evs, newly_closed)
+            if any(prev_state.get(j) != st.get(j) for j in prev_open):
+                return "state changed by kill"
+            self.dying.add(i)
+            return None
+        if op == "senddie":
+            i = int(t[1])
+            if i not in prev_open or i not in prev_state:
+                return None
+            r = self.srv_expect(i, self.blobs[t[2]], prev_state[i])
+            if i not in closed:
+                return "connection %d stays open although its peer closed right after sending" % i
+            if r is not None:
+                cbs, etx, must_close, post = r
+                got_cb = [e for e in plain if e.startswith("cb")]
+                known = cbs[:cbs.index(None)] if None in cbs else cbs
+                nk = min(len(got_cb), len(known))
+                if got_cb[:nk] != known[:nk] or (None not in cbs and len(got_cb) > len(cbs)):
+                    return "callbacks %r are not a prefix of the texts the client sent %r" % (got_cb, known)
+                if not etx and None not in cbs and got_cb != cbs:
+                    return "callbacks %r, the client's texts (no reply was due) require %r" % (got_cb, cbs)
+            if tx.get("tx%d" % i):
+                return "reply read from a closed peer?"
+            return others_untouched(i)
         if op == "close":
             i = int(t[1])
             if i not in closed:
@@ -1062,7 +1233,7 @@ class Spec:
                         if i in closed:
                             return "publish closed reference peer %d" % i
                     else:
-                        want = ["ccb%d:l1:%d:%s" % (i, len(payload), fnvc(payload))]
+                        want = [] if self.nol1.get(i) else ["ccb%d:l1:%d:%s" % (i, len(payload), fnvc(payload))]
                         if len(payload) <= LIMIT:
                             if got_c != want or dropped:
                                 return "library client %d got %r (dropped=%s), published %r" % (i, got_c, dropped, want)
@@ -1214,8 +1385,8 @@ def run_one(ctx, h, d, name, script, exact):
 def _short(script):
     out = []
     for l in script.splitlines():
-        out.append(l if len(l) < 400 else l[:200] + "...(%d chars)" % len(l))
-    return out[:400]
+        out.append(l if len(l) < 300000 else l[:200] + "...(%d chars)" % len(l))   # keep replays replayable
+    return out[:2000]
 
 
 def run(ctx):
@@ -1285,9 +1456,9 @@ def run(ctx):
 
 
 PARTIAL = [
-    "client_to_app_exact_partial / client_roundtrip_partial: the extended direction is proved for every text whose COMPRESSED message fits the 1 MiB message limit (exact characterisation; client_to_app_compressed_oversize proves the others are refused and the sender closed). The unrestricted statement 'every text up to 1 MiB' is false of the code for incompressible texts within a few hundred bytes of 1 MiB; on LibVNCClient<->server links these lengths are checked by the direct oracle only",
+    "client_to_app_exact_partial / client_roundtrip_partial: 'every text of 0..1 MiB makes the extended round trip' is false of the code in two ways: the record limit counts the NUL (largest extended text 2^20-1 bytes; the classic message carries 2^20) and the compressed message is bounded by 1 MiB too (incompressible texts within a few hundred bytes of the limit). The exact set is the decidable predicate fitsServer/fitsClient; client_to_app_exact_iff / client_roundtrip_iff prove delivered-exactly <=> predicate, closed-without-callback otherwise. On LibVNCClient<->server links the window (1 MiB - 2 KiB, 1 MiB) is checked by the direct oracle only (real compressed sizes are zlib's)",
     "handshake states are not modelled beyond the flag `normal` (publish functions skip such clients; the handler model `feed` is for NORMAL connections only)",
-    "write failures / allocation failures of the senders are not modelled (peer buffers are large in the harness)",
+    "write failures are modelled for a peer that is gone (every write fails: field peerGone, ops kill/senddie); partial writes, allocation failures, compress()/inflateInit failures are not modelled (not reachable without fault injection)",
     "SetEncodings is modelled only in its effect on the clipboard state; other message types are outside the model ('unmodelled')",
     "segmentation: the model consumes the concatenated stream; independence from segmentation is exercised (interposed read(): every 1-cut split of a six-message stream on either library, random 1-3 cuts elsewhere, each cut followed by one EAGAIN) but is a property of rfbReadExact/ReadFromRFBServer, not proved here",
 ]
